@@ -43,7 +43,7 @@ vsa("C24", "For terms over variables annotated with strided intervals, TLC evalu
 vsa("C25", "constraint_to_si(c) -> (sat, [(expr, bound)]): if some assignment satisfies c then sat must be True and under every satisfying assignment every expr lies in gamma(bound); all shapes x comparisons x constants at width <= 4, annotated variables, And/Or/Not combinations.",
     "constraint_to_si exceptions are recorded, not judged.")
 CHECKS["C06"] = dict(engine="store", cat="model_checking", tech="TLA+ state machine of the hash-cons store (ExprStore.tla: Build / Annotate / BVVk / Drop; invariants Inj, Faithful, RefLive, Closed, Canon) explored by TLC; behaviours replayed on the real claripy and validated by TLC (TraceStore.tla)",
-  text="TLC explores every interleaving of builds, annotations, BVV constructions and weak-reference deaths over six alphabets of structural keys whose annotation contents collide under Python's hash() (-1/-2, 2^61-1/0, 2^61/1, low-16-bit twins, constant-__hash__ classes, equal-field RegionAnnotations, keys differing in one component incl. width) or sit next to the one-byte markers of the structural hash (None/15, True/31, False/46, 1/0); one history per reachable state is replayed on the real store (strong reference per live id, Drop = del + gc.collect()); after every step the identity partition and the serialised nodes are recorded together with the request, and TLC checks Inj (same key iff same object) and Faithful (what came back has the requested key). Pools of <= 2000 expressions from the expression streams are checked pairwise as well.",
+  text="TLC explores every interleaving of builds, annotations, BVV constructions and weak-reference deaths over seven alphabets of structural keys whose annotation contents collide under Python's hash() (-1/-2, 2^61-1/0, 2^61/1, low-16-bit twins, constant-__hash__ classes, equal-field RegionAnnotations, keys differing in one component incl. width) or sit next to the one-byte markers of the structural hash (None/15, True/31, False/46, 1/0 in annotation fields; ESI(4) next to BVV(15, 4)); one history per reachable state is replayed on the real store (strong reference per live id, Drop = del + gc.collect()); after every step the identity partition and the serialised nodes are recorded together with the request, and TLC checks Inj (same key iff same object) and Faithful (what came back has the requested key). Pools of <= 2000 expressions from the expression streams are checked pairwise as well.",
   note="Bounds: <= 6 live nodes, <= 8 steps per alphabet; the as-coded reading of the model only predicts, verdicts come from the recorded runs.", ref="5 C06")
 CHECKS["C07"] = dict(engine="annot", cat="exploration", tech="TLA+ annotation contract (TraceAnnot.tla over Term.tla: UnelimOK, unelim-moved, RelocOK with relocate() images, simplify top/reloc, solver avoid clause) evaluated by TLC on recorded constructions",
   text="Depth <= 2 trees at width 2 with every leaf and inner node decorated with each subset of eliminatable / uneliminatable / relocatable test annotations (own id per node, relocatable ones in a verbatim and a tagging flavour), the shortcut paths (If with constant condition, x+0, x^x, x&0, Extract of Concat ...), explicit claripy.simplify and Solver.simplify with SimplificationAvoidanceAnnotation: TLC checks that no sub-expression carrying a non-eliminatable non-relocatable annotation disappears, every relocatable annotation of an argument is on the result, simplify keeps top annotations, and protected constraints are unchanged.",
